@@ -453,6 +453,42 @@ def _core_order_and_controls():
     t = _base_tree()
     t.suites['d2/exactly.suite']['items'] += [['cases', '../sub/x.case'], ['cases', '../sub/e/z.case']]
     yield t.descriptor('core-control', label='case-listed-in-two-suites')
+    # --- quoted entries: a quoted token is a plain file name, also when it holds pattern characters or spaces -------
+    t = Tree()
+    t.case('what?.case', 'FAIL')
+    t.case('what1.case')
+    t.case('p.case')
+    t.suite('root.suite', [['cases', 'p.case'], ['cases', "'what?.case'"]])
+    yield t.descriptor('core-order', label='quoted-name-with-question-mark')
+    t = Tree()
+    t.case('odd[1].case', 'FAIL')
+    t.case('odd1.case')
+    t.suite('root.suite', [['cases', '"odd[1].case"'], ['cases', 'odd1.case']], omit=True)
+    yield t.descriptor('core-order', label='quoted-name-with-brackets')
+    t = Tree()
+    t.case('st*r.case')
+    t.case('star.case', 'FAIL')
+    t.case('my case.case', 'XFAIL')
+    t.suite('root.suite', [['cases', "'st*r.case'"], ['cases', "'my case.case'"]])
+    yield t.descriptor('core-order', label='quoted-name-with-star-and-with-space')
+    t = Tree()
+    t.case('sub/a.case', 'FAIL')
+    t.case('sx/b.case')
+    t.case('r.case')
+    t.suite('sub/s[x].suite', [['cases', 'a.case']])
+    t.suite('sx/sx.suite', [['cases', 'b.case']])
+    t.suite('root.suite', [['suites', "'sub/s[x].suite'"], ['cases', 'r.case']])
+    yield t.descriptor('core-order', label='quoted-suite-name-with-brackets')
+    t = Tree()
+    t.case('nope1.case')
+    t.case('p.case')
+    t.suite('root.suite', [['cases', 'p.case'], ['cases', "'nope*.case'"]])
+    yield t.descriptor('core-invalid', label='missing:quoted-name-with-star-is-not-a-pattern')
+    t = Tree()
+    t.case('p.case')
+    t.suite('s1.suite', [['cases', 'p.case']])
+    t.suite('root.suite', [['suites', '"s?.suite"']])
+    yield t.descriptor('core-invalid', label='missing:quoted-suite-name-with-question-mark-is-not-a-pattern')
     t = Tree()
     t.suite('root.suite', [])
     yield t.descriptor('core-control', label='empty-suite')
